@@ -222,6 +222,31 @@ mod tests {
     }
 
     #[test]
+    fn test_builder_v2_total_beyond_40_bits_is_rejected() {
+        // 257 entries of the largest 4-byte esize add up to more than the
+        // 5-byte total of a V2 header can say; V1 has an 8-byte total
+        let entries = |mut builder: SizeManifestBuilder| {
+            for i in 0..257u32 {
+                let mut key = vec![0u8; 9];
+                key[..4].copy_from_slice(&i.to_be_bytes());
+                builder = builder.add_entry(key, 0xFFFF_FFFF);
+            }
+            builder
+        };
+        assert!(matches!(
+            entries(SizeManifestBuilder::new()).build(),
+            Err(SizeError::TotalSizeTooLarge(_))
+        ));
+
+        let manifest = entries(SizeManifestBuilder::new().version(1).esize_bytes(4))
+            .build()
+            .expect("Should build V1 manifest");
+        let data = manifest.build().expect("Should serialize");
+        let parsed = SizeManifest::parse(&data).expect("Should parse");
+        assert_eq!(parsed.header.total_size(), 257 * 0xFFFF_FFFF);
+    }
+
+    #[test]
     fn test_builder_empty_manifest() {
         let manifest = SizeManifestBuilder::new()
             .build()
